@@ -107,7 +107,7 @@ func init() {
 func Install(c *Ctl) { cur.Store(c) }
 
 func New(log *script.Log, connID func(*go9p.Conn) int) *Ctl {
-	c := &Ctl{Log: log, ConnID: connID, passed: map[passKey]int{}, gtags: map[uint64]int{}, Trace: true, UseGID: true}
+	c := &Ctl{Log: log, ConnID: connID, passed: map[passKey]int{}, gtags: map[uint64]int{}, Trace: true, UseGID: false}
 	c.cond = sync.NewCond(&c.mu)
 	return c
 }
